@@ -152,6 +152,12 @@ _STD_CONTAINERS = {"collections.defaultdict": _collections.defaultdict, "default
 import re as _re  # noqa: E402
 
 _STD_RE = {"re." + k: getattr(_re, k) for k in ("sub", "match", "search", "fullmatch", "split", "findall", "escape")}
+import bisect as _bisect  # noqa: E402
+
+_STD_PURE = {}
+for _k in ("bisect", "bisect_left", "bisect_right"):
+    _STD_PURE["bisect." + _k] = getattr(_bisect, _k)
+    _STD_PURE[_k] = getattr(_bisect, _k)      # `from bisect import bisect_right`
 _TYPES = {"bool": bool, "int": int, "float": float, "str": str, "list": list, "tuple": tuple,
           "dict": dict, "set": set, "slice": slice}
 _STR_METHODS = {
@@ -547,6 +553,11 @@ class Evaluator:
             return _ft.partial(*args, **kwargs)
         if key in _STD_CONTAINERS:
             return self._builtin(_STD_CONTAINERS[key], args, kwargs)
+        if key in _STD_PURE and key.split(".")[0] not in self.locals and key.split(".")[0] not in self.bound and key not in self.funcs:
+            try:
+                return _STD_PURE[key](*args, **kwargs)   # pure functions of the standard library over built-in values
+            except (TypeError, ValueError, IndexError) as e:
+                raise Raised(type(e).__name__)
         if key in _STD_RE and "re" not in self.locals and "re" not in self.bound:
             try:
                 return _STD_RE[key](*args, **kwargs)    # regular expressions of the standard library: pure functions of strings
